@@ -226,6 +226,54 @@ pub fn run_case(c: &Case) -> Result<(), (String, String)> {
     Ok(())
 }
 
+/// A user evaluator that, for every individual, first evaluates a neighbour through the evaluation step registered under
+/// identifier A (a temporary one-individual population on the same state) and then the individual itself.
+pub struct Nesting;
+impl Evaluate for Nesting {
+    type Problem = RealP;
+    fn evaluate(&mut self, problem: &RealP, state: &mut State<RealP>, individuals: &mut [Individual<RealP>]) {
+        for i in individuals.iter_mut() {
+            let mut nb = i.solution().clone();
+            nb[0] += 100.0;
+            state.populations_mut().push(vec![Individual::new_unevaluated(nb)]);
+            let inner: Box<dyn Component<RealP>> = PopulationEvaluator::<A>::new_with();
+            let _ = inner.execute(problem, state);
+            state.populations_mut().pop();
+            let o = mahf::problems::ObjectiveFunction::objective(problem, i.solution());
+            i.set_objective(o);
+        }
+    }
+}
+
+/// An evaluation step whose evaluator runs evaluation steps of its own on the same state: every objective call is counted once.
+fn check_nesting_evaluator(n: usize, steps: usize) -> Option<(String, String)> {
+    let instr = Instr::new();
+    let problem = RealP::new(2, -1000.0, 1000.0, FKind::Sphere, instr.clone());
+    let pop: Vec<Individual<RealP>> = (0..n).map(|i| Individual::new_unevaluated(vec![i as f64 * 0.5, 1.0])).collect();
+    let mut st = state_with::<RealP>(vec![pop]);
+    st.insert(Evaluations(5));
+    st.insert_evaluator(Nesting);
+    st.insert_evaluator_as::<A>(Sequential::<RealP>::new());
+    let comp: Box<dyn Component<RealP>> = PopulationEvaluator::new();
+    let ctx = |w: String| format!("{} individuals, {} executions of the evaluation step whose (user) evaluator evaluates one neighbour per individual through the step registered under identifier A: {}", n, steps, w);
+    for k in 0..steps {
+        match catch(|| comp.execute(&problem, &mut st)) {
+            Err(p) => return Some(("C06 evaluator=custom-nesting panic".into(), ctx(format!("execution {} panicked: {}", k, p)))),
+            Ok(Err(e)) => return Some(("C06 evaluator=custom-nesting error".into(), ctx(format!("execution {}: {:#}", k, e)))),
+            _ => {}
+        }
+        let calls = instr.calls() as usize;
+        let counter = st.get_value::<Evaluations>() as usize;
+        if counter != 5 + calls || calls != 2 * n * (k + 1) {
+            return Some(("C06 evaluator=custom-nesting counter".into(), ctx(format!("after execution {} the counter went from 5 to {}; the objective function was called {} times (expected {})", k, counter, calls, 2 * n * (k + 1)))));
+        }
+    }
+    if pops_of(&st).len() != 1 || pops_of(&st)[0].len() != n || pops_of(&st)[0].iter().any(|i| !i.is_evaluated()) {
+        return Some(("C06 evaluator=custom-nesting population".into(), ctx("the population is not left in place, fully evaluated".into())));
+    }
+    None
+}
+
 /// A configuration that asks for an evaluator identifier which is not registered must fail
 /// before anything executes.
 const PLACES: [&str; 6] = ["top-level", "loop-body", "if-body", "else-body", "scope", "loop>else>scope"];
@@ -556,6 +604,17 @@ pub fn run_part_a(rep: &mut Report) {
             }
         }
     }
+    for n in 0..=4usize {
+        for steps in 1..=2usize {
+            p.transitions += (2 * n * steps) as u64;
+            p.traces += 1;
+            p.states += 1;
+            p.outcome("nesting-evaluator");
+            if let Some((s, d)) = check_nesting_evaluator(n, steps) {
+                p.violate(s, d, json!({"kind": "nesting", "n": n, "steps": steps}));
+            }
+        }
+    }
     p.require(gated >= 6, "no gated completion orders were explored");
     let deg = DEGRADED.load(Ordering::SeqCst);
     if deg > 0 {
@@ -632,6 +691,7 @@ pub fn replay_a(case: &Value) -> Result<Vec<(String, String)>, String> {
         }
         "deep" => Ok(check_deep_evaluator(case["depth"].as_u64().unwrap_or(0) as usize, case["passes"].as_u64().unwrap_or(1) as u32, case["id_a"].as_bool().unwrap_or(false)).into_iter().collect()),
         "scoped-evaluator" => Ok(check_scoped_evaluator(case["id_a"].as_bool().unwrap_or(false), case["passes"].as_u64().unwrap_or(1) as u32).into_iter().collect()),
+        "nesting" => Ok(check_nesting_evaluator(case["n"].as_u64().unwrap_or(1) as usize, case["steps"].as_u64().unwrap_or(1) as usize).into_iter().collect()),
         "rerun" => Ok(check_rerun_on_same_state(case["runs"].as_u64().unwrap_or(1) as usize, case["pop"].as_u64().unwrap_or(1) as u32, case["passes"].as_u64().unwrap_or(1) as u32).into_iter().collect()),
         "missing" => Ok(check_missing_evaluator(case["want_a"].as_bool().unwrap_or(false), case["place"].as_u64().unwrap_or(0) as usize, case["entry"].as_u64().unwrap_or(0) as usize).into_iter().collect()),
         "evalstep" => {
